@@ -6,7 +6,8 @@ valid input (assert / abort) is a violation."""
 import random, itertools
 from . import common as C
 from . import mapfam as F, subfam as S, viewfam as V
-import harness.gen_map as GM, harness.gen_sub as GS, harness.gen_view as GV
+import harness.gen_map as GM, harness.gen_sub as GS, harness.gen_view as GV, harness.gen_conv as GC
+from . import checks_c08 as K08
 
 QUICK = ['clang23-O2-ndebug', 'clang17-O0-ndebug-emul', 'gcc17-O2-assert', 'gcc23-O0-assert-mdspandebug']
 THOROUGH = QUICK + ['gcc20-ubsan', 'gcc20-O2-ndebug-emul', 'clang20-O0-assert', 'gcc23-O0-assert', 'clang20-ubsan', 'gcc23-ubsan', 'gcc17-ubsan']
@@ -89,6 +90,26 @@ def check(prop, tier, seed, replay=None):
                     n_ok += 1
                 rep.cov['traces_validated_against_impl'] += 1
                 if len(c.ext) >= 1: rep.nontrivial((fam, c.base()))
+        # mapping conversions and comparisons (C08's family): the debug-only precondition checks must not fire on valid input
+        cinsts = GC.instances() if thorough else GC.lite(GC.instances())
+        conv, eqs = K08.gen(seed, 'quick', cinsts)
+        pre = [x == 'ok 1' for x in C.driver([l + ' pre' for l, _ in conv])]
+        clines = [l for (l, _), p in zip(conv, pre) if p] + [l for l, _ in eqs]
+        if len(clines) > 6000: clines = random.Random(seed).sample(clines, 6000)
+        cm = [F.canon(x) for x in C.driver(clines)]
+        try:
+            exe, secs, cached = C.cxx_build('convsrv' + ('' if thorough else '-lite'), GC.sources(insts=cinsts), config=cfg)
+            co = [F.canon(x) for x in C.pipe(exe, clines)]
+            for l, xi, xm in zip(clines, co, cm):
+                rep.cov['evaluations'] += 1
+                core = xi.split(' impl=')[0]
+                if '17' in cfg.split('-')[0] and ' impl=' in xi: pass
+                if core != xm:
+                    dead = xi.startswith('died') or xi in ('segv', 'ub')
+                    rep.violation(dict(kind='debug-check-or-crash-on-valid-input' if dead else 'result-differs-between-configurations', family='conv', config=cfg, line=l, impl=xi[:300], model_and_other_configurations=xm[:300])); break
+                n_ok += 1
+        except C.BuildError as e:
+            rep.violation(dict(kind='library-does-not-compile-in-a-supported-configuration', family='conv', config=cfg, errors=[l for l in e.log.split('\n') if 'error' in l][:5]))
         per_cfg[cfg] = n_ok
     # C++14
     lines14 = c14_lines(random.Random(seed + 14), 400 if not thorough else 3000)
